@@ -60,6 +60,8 @@ def cases(tier, seed):
                 for scr in (False, True):
                     for seedkind in ("memory",) if tier == "quick" else ("memory", "reloaded"):
                         out.append(dict(fam="resume", N=N, n1=n1, k=k, screening=scr, seed=seedkind))
+    for n1, k, scr in itertools.product(range(1, 8), (1, 3), (False, True)):
+        out.append(dict(fam="resume", N=8, n1=n1, k=k, screening=scr, seed="memory", fixed_by="equal_bounds"))
     # the intermediate solution is looked at (post-processing, plots) before it seeds the continuation: observing does not change it
     for n1, scr, seedkind in itertools.product((3, 5), (False, True), ("memory", "reloaded")):
         out.append(dict(fam="resume", N=8, n1=n1, k=2, screening=scr, seed=seedkind, looked_at=True))
@@ -252,10 +254,15 @@ def run_resume(case):
     N, n1, k, scr = case["N"], case["n1"], case["k"], case["screening"]
     dt = 2.0**-5
     dev = drivers.tiny(2, terminals=True)
+    eq = case.get("fixed_by") == "equal_bounds"
+    if eq:
+        # the documented other way of asking for a fixed step: adaptive=True with dt_init == dt_max; a step that is not a power of two
+        # (the clock accumulates rounding) and solve times that end between two steps
+        dt = 0.03
 
     def opts(steps, kk, path):
         return tdgl.SolverOptions(
-            solve_time=steps * dt, dt_init=dt, dt_max=dt, adaptive=False, save_every=kk, output_file=path,
+            solve_time=(steps - 0.5 if eq else steps) * dt, dt_init=dt, dt_max=dt, adaptive=bool(eq), save_every=kk, output_file=path,
             include_screening=scr, screening_tolerance=1e-2, progress_interval=10**9,
         )
 
@@ -324,6 +331,18 @@ def run_resume(case):
                     detail={"case": case, "resumed_label": j, "uninterrupted_label": n1 + j, "max_abs_diff": float(np.abs(a - b).max())},
                 )
                 break
+    if eq:
+        # every step of both runs has the requested length
+        for nm in ("full.h5", "first.h5", "second.h5"):
+            prev_label = 0
+            for fr in drivers.read_frames(nm)[0]:
+                rec = fr.get("records") or {}
+                label = int(fr["attrs"]["step"])
+                used = np.atleast_1d(rec["dt"])[: label - prev_label] if "dt" in rec else np.array([])  # (the buffer of the last frame may be longer than the steps it holds)
+                prev_label = label
+                if not np.all(used == dt):
+                    res.violate("fixed-step-run-used-another-step", detail={"file": nm, "dts": used.tolist()})
+                    break
     if int(second[-1]["attrs"]["step"]) != N - n1:
         res.violate("resumed-run-length", detail={"last": int(second[-1]["attrs"]["step"]), "want": N - n1})
     res.executions = 4
